@@ -71,22 +71,23 @@ var fieldPool = []string{"body", "name", "tag", "desc", "x1", "x2", "zeta", stri
 	"Title", "0num"} // the last two sort before "_id" (as the composite "_all" does)
 
 type batchCfg struct {
-	maxDocs   int
-	minDocs   int
-	fields    []string
-	maxFields int
-	terms     [][]byte
-	comp      bool
-	emptyTerm bool
-	syn       bool
-	vec       bool
-	dupIDs    bool
-	bigVals   bool
-	noLocs    float64 // probability that a field instance has no term vectors
-	freq0     bool
-	vecDim    int
-	vecOne    bool // a single vector field, 2-3 vectors per document
-	vecAll    bool // every document carries the vector field(s)
+	maxDocs        int
+	minDocs        int
+	fields         []string
+	maxFields      int
+	terms          [][]byte
+	comp           bool
+	emptyTerm      bool
+	syn            bool
+	vec            bool
+	dupIDs         bool
+	bigVals        bool
+	noLocs         float64 // probability that a field instance has no term vectors
+	freq0          bool
+	vecDim         int
+	vecOne         bool   // a single vector field, 2-3 vectors per document
+	vecAll         bool   // every document carries the vector field(s)
+	vecOptOverride string // optimisation of the vector fields of this batch (default: the run's)
 }
 
 func (g *Gen) defaultCfg() batchCfg {
@@ -303,13 +304,17 @@ func (g *Gen) randBatch(name string, cfg batchCfg) *BatchSpec {
 			nv := 1 + g.r.Intn(3)
 			vf := FieldSpec{Kind: "vec", Name: g.pick([]string{"vecA", "vecB"}), Dim: dim, Metric: "l2_norm", Opt: "recall"}
 			if cfg.vecOne {
+				// 1-3 vectors per document (2.25 on average: 520 documents still give >= 1000 vectors)
 				vf.Name = "vecA"
-				nv = 2 + g.r.Intn(2)
+				nv = []int{1, 2, 3, 3}[g.r.Intn(4)]
 			}
 			if vf.Name == "vecB" {
 				vf.Metric = g.vecBMetric
 			}
 			vf.Opt = g.vecOpt[vf.Name]
+			if cfg.vecOptOverride != "" {
+				vf.Opt = cfg.vecOptOverride
+			}
 			for k := 0; k < nv*dim; k++ {
 				vf.Vec = append(vf.Vec, g.r.Intn(9)-4)
 			}
